@@ -142,8 +142,17 @@ def bytesOfHexAux : List Char → Bytes → Option Bytes
     | some x, some y => bytesOfHexAux r (UInt8.ofNat (x * 16 + y) :: acc)
     | _, _ => none
 
+/-- `gen:<len>:<seed>` — a long deterministic byte string: byte i = (i*7 + seed + i/251) % 256 -/
+def genBytes (len seed : Nat) : Bytes :=
+  (List.range len).map fun i => UInt8.ofNat ((i * 7 + seed + i / 251) % 256)
+
 def bytesOfHex (s : String) : Option Bytes :=
-  if s = "-" then some [] else bytesOfHexAux s.toList []
+  if s = "-" then some []
+  else if s.startsWith "gen:" then
+    match s.splitOn ":" with
+    | [_, l, sd] => do pure (genBytes (← l.toNat?) (← sd.toNat?))
+    | _ => none
+  else bytesOfHexAux s.toList []
 
 def strOfBytes (b : Bytes) : Option String :=
   String.fromUTF8? (ByteArray.mk b.toArray)
